@@ -1016,11 +1016,10 @@ func R08(group string) Rule {
 			// bounded lock hand-over in the pass
 			la := Locks(P)
 			handover := false
+			// the per-row callback (or a helper it calls: `yieldLock(done)`) releases and re-takes the lock
 			for _, f := range core.Family(fn) {
-				if f != fn && la.Fns[f] != nil {
-					if _, ok := la.Fns[f].breaksDirect[tableLock]; ok {
-						handover = true
-					}
+				if f != fn && la.Breaks[f][tableLock] {
+					handover = true
 				}
 			}
 			c.Check(handover, "R08", "gc/periodic-handover", fn.Pos(), "the per-row callback releases and re-takes the table lock", "the GC pass holds the table lock for the whole table: clients are blocked for the duration of the pass")
